@@ -525,4 +525,103 @@ theorem mask_refines {rb : RB} {a : AState} (wf : WF rb) (R : Refines rb a) (m :
     · rintro ⟨⟨x, y⟩, z⟩; refine ⟨⟨x, ?_⟩, ?_⟩ <;> (split at y <;> split at z <;> omega)
     · rintro ⟨⟨x, y⟩, z⟩; refine ⟨⟨x, ?_⟩, ?_⟩ <;> (split <;> omega)
 
+/-! ## Pen and stack -/
+
+theorem copyAttr_empty {α : Type} (eqv : Option α → Option α → Bool) (src : Option α) :
+    Pen.copyAttr eqv true none src = src := by
+  unfold Pen.copyAttr; cases src <;> simp
+
+theorem copyAttr_noow {α : Type} (eqv : Option α → Option α → Bool) (dst src : Option α) :
+    Pen.copyAttr eqv false dst src = orElse dst src := by
+  unfold Pen.copyAttr orElse; cases src <;> cases dst <;> simp
+
+/-- `tickit_pen_copy(new, p, 1)` into a fresh pen is `p`. -/
+theorem Pen.copy_empty (p : Pen) : Pen.copy Pen.empty p true = p := by
+  unfold Pen.copy Pen.empty; simp only [copyAttr_empty]
+
+/-- `tickit_pen_copy(dst, src, 0)`: attribute-wise "keep what is there, else take from `src`". -/
+theorem Pen.copy_noow (p q : Pen) : Pen.copy p q false = mergePen p q := by
+  unfold Pen.copy mergePen; simp only [copyAttr_noow]
+
+theorem setpen_refines {rb : RB} {a : AState} (wf : WF rb) (R : Refines rb a) (pen : Option Pen) :
+    WF (RB.setpen rb pen) ∧ Refines (RB.setpen rb pen) (RBAbs.setpen a pen) := by
+  refine ⟨⟨wf.size, wf.rows, wf.maskLB, wf.maskUB, wf.depth, wf.clip, wf.frames, wf.aborted, wf.fuelOut⟩, ?_⟩
+  have hpen : (RBAbs.setpen a pen).pen = (RB.setpen rb pen).pen := by
+    have hs := R.stack
+    unfold RBAbs.setpen RB.setpen
+    cases hrs : rb.stack with
+    | nil =>
+      rw [hrs] at hs
+      cases has : a.stack with
+      | nil => cases pen <;> simp [Pen.copy_empty]
+      | cons g gs => rw [has] at hs; simp [FramesRel] at hs
+    | cons f fs =>
+      rw [hrs] at hs
+      cases has : a.stack with
+      | nil => rw [has] at hs; simp [FramesRel] at hs
+      | cons g gs =>
+        rw [has] at hs
+        unfold FramesRel at hs
+        have := hs.1.2.1
+        cases pen <;> simp [Pen.copy_empty, Pen.copy_noow, this]
+  have hrest : (RBAbs.setpen a pen) = { a with pen := (RBAbs.setpen a pen).pen } := by
+    unfold RBAbs.setpen; cases a.stack <;> rfl
+  rw [hrest, hpen]
+  refine ⟨R.lines, R.cols, R.content, R.masked, R.vc, R.xlLine, R.xlCol, R.clip, rfl, ?_⟩
+  refine FramesRel_congr (rb := rb) ?_ _ _ _ R.stack
+  intro d L C; rfl
+
+theorem absMaskedAt_depth {rb : RB} (wf : WF rb) (L C : Int) : absMaskedAt rb rb.depth L C = absMasked rb L C := by
+  unfold absMaskedAt
+  have := wf.maskUB L C
+  simp [this]
+
+theorem getCursor_some {rb : RB} {p : Int × Int} (h : getCursor rb = some p) : rb.vcSet = true ∧ p = (rb.vcLine, rb.vcCol) := by
+  unfold getCursor at h
+  cases hs : rb.vcSet with
+  | false => rw [hs] at h; simp at h
+  | true => rw [hs] at h; simp at h; exact ⟨rfl, h.symm⟩
+
+theorem save_refines {rb : RB} {a : AState} (wf : WF rb) (R : Refines rb a) :
+    WF (RB.save rb) ∧ Refines (RB.save rb) (RBAbs.save a) := by
+  refine ⟨⟨wf.size, wf.rows, wf.maskLB, ?_, ?_, wf.clip, ?_, wf.aborted, wf.fuelOut⟩,
+    ⟨R.lines, R.cols, R.content, R.masked, R.vc, R.xlLine, R.xlCol, R.clip, R.pen, ?_⟩⟩
+  · intro l c; have := wf.maskUB l c; show (rb.cell l c).maskdepth ≤ rb.depth + 1; omega
+  · show rb.depth + 1 = ((_ :: rb.stack).length : Int); rw [wf.depth]; simp
+  · intro f hf hp
+    rcases List.mem_cons.1 hf with rfl | hf
+    · exact wf.clip
+    · exact wf.frames f hf hp
+  · show FramesRel (RB.save rb) (rb.depth + 1) (_ :: rb.stack) (_ :: a.stack)
+    unfold FramesRel
+    have e : rb.depth + 1 - 1 = rb.depth := by omega
+    rw [e]
+    refine ⟨⟨rfl, R.pen.symm, fun L C => ?_, fun _ => ⟨R.xlLine.symm, R.xlCol.symm, R.clip, fun p hp => ?_⟩⟩, ?_⟩
+    · show a.masked L C = absMaskedAt (RB.save rb) rb.depth L C
+      rw [R.masked]; exact (absMaskedAt_depth wf L C).symm
+    · have hp' : a.vc = some p := hp
+      rw [R.vc] at hp'; exact (getCursor_some hp').2
+    · refine FramesRel_congr (rb := rb) ?_ _ _ _ R.stack
+      intro d L C; rfl
+
+theorem savepen_refines {rb : RB} {a : AState} (wf : WF rb) (R : Refines rb a) :
+    WF (RB.savepen rb) ∧ Refines (RB.savepen rb) (RBAbs.savepen a) := by
+  refine ⟨⟨wf.size, wf.rows, wf.maskLB, ?_, ?_, wf.clip, ?_, wf.aborted, wf.fuelOut⟩,
+    ⟨R.lines, R.cols, R.content, R.masked, R.vc, R.xlLine, R.xlCol, R.clip, R.pen, ?_⟩⟩
+  · intro l c; have := wf.maskUB l c; show (rb.cell l c).maskdepth ≤ rb.depth + 1; omega
+  · show rb.depth + 1 = ((_ :: rb.stack).length : Int); rw [wf.depth]; simp
+  · intro f hf hp
+    rcases List.mem_cons.1 hf with rfl | hf
+    · simp at hp
+    · exact wf.frames f hf hp
+  · show FramesRel (RB.savepen rb) (rb.depth + 1) (_ :: rb.stack) (_ :: a.stack)
+    unfold FramesRel
+    have e : rb.depth + 1 - 1 = rb.depth := by omega
+    rw [e]
+    refine ⟨⟨rfl, R.pen.symm, fun L C => ?_, fun h => by simp at h⟩, ?_⟩
+    · show a.masked L C = absMaskedAt (RB.savepen rb) rb.depth L C
+      rw [R.masked]; exact (absMaskedAt_depth wf L C).symm
+    · refine FramesRel_congr (rb := rb) ?_ _ _ _ R.stack
+      intro d L C; rfl
+
 end Tickit.RB
